@@ -34,7 +34,7 @@ def run_history(ctx, r, n_cmds, weights, oracle, legacy=None, prelude=None, gen_
         pre = None
         diverged = False
         for i in range(n_cmds):
-            if i and r.p(4):
+            if i and r.p(4) and st.log_bytes().endswith(b"\n"):
                 # another writer was killed in the middle of its write: the log now ends in a fragment without newline (readers skip it, the
                 # next writer drops it).  Nothing about what commands decide, print or record may depend on it.
                 frag = r.pick(TORN_FRAGMENTS)
@@ -42,6 +42,14 @@ def run_history(ctx, r, n_cmds, weights, oracle, legacy=None, prelude=None, gen_
                     f.write(frag)
                 trace.append({"edit": "torn fragment appended to the log, no newline", "bytes": frag.decode("utf-8", "replace")})
                 pre = None
+            elif i and r.p(3):
+                # the last line is complete but its newline is missing (a write cut one byte short; an editor or a merge that drops the final
+                # newline): readers take the line as an event, so the next writer has to keep it — and to decide on a log that contains it
+                data = st.log_bytes()
+                if data.endswith(b"\n") and len(data) > 1:
+                    with open(st.log_path(), "wb") as f:
+                        f.write(data[:-1])
+                    trace.append({"edit": "final newline of the log removed (the last line stays a complete event)"})
             req, agent = (gen_fn or gen.gen_request)(r, v, weights)
             req = cmdrun.classify_raw(ctx.go, req)
             rec = cmdrun.run_and_compare(st, ctx.model, req, agent, pre_graph=pre)
